@@ -1,4 +1,5 @@
 import Fix8Model.Session.Step
+import Fix8Model.Session.Ext
 import Fix8Model.Session.Scan
 import Drivers.Common
 /-! line-protocol driver of the session model (streams `sess` = fixed code, `sessbase` = base commit).
@@ -85,18 +86,30 @@ structure DSt where
 
 def init (fixed : Bool) : DSt := ⟨Sess.init ⟨true, 1, 2⟩ (if fixed then Code.fixed else Code.base) false, fixed, false⟩
 
+def newSeg (d : DSt) (pk enf ss rs : String) : DSt × String :=
+  match ss.toNat?, rs.toNat? with
+  | some ss, some rs =>
+    let s0 := ((Sess.init ⟨enf == "1", 1, 2⟩ d.s.code (pk != "none")).step (.clock t0)).1
+    let r := s0.step (.start ss rs)
+    ({ d with s := r.1, unmodelled := false }, render "" r.2 r.1)
+  | _, _ => (d, "bad-op")
+
+/-- `pid` (a new order) or `pid@seq` (an order that already carries MsgSeqNum seq) -/
+def parseEl (w : String) : Option BEl :=
+  match w.splitOn "@" with
+  | [p] => p.toNat?.map BEl.new
+  | [p, k] => match p.toNat?, k.toNat? with
+    | some p, some k => some (.dup p k)
+    | _, _ => none
+  | _ => none
+
 def step (d : DSt) (line : String) : DSt × String :=
   let w := Drivers.words line
   let s := d.s
   match w with
   | ["new", _, _, _, _, "A"] => ({ d with unmodelled := true }, "unmodelled")
-  | ["new", pk, enf, ss, rs] =>
-    match ss.toNat?, rs.toNat? with
-    | some ss, some rs =>
-      let s0 := ((Sess.init ⟨enf == "1", 1, 2⟩ s.code (pk != "none")).step (.clock t0)).1
-      let r := s0.step (.start ss rs)
-      ({ d with s := r.1, unmodelled := false }, render "" r.2 r.1)
-    | _, _ => (d, "bad-op")
+  | ["new", pk, enf, ss, rs] => newSeg d pk enf ss rs
+  | ["new", pk, enf, ss, rs, "X"] => newSeg d pk enf ss rs      -- segment with the extended operations (Sess.stepX)
   | ["restart", ss, rs] =>
     if d.unmodelled then (d, "unmodelled") else
     match ss.toNat?, rs.toNat? with
@@ -140,6 +153,18 @@ def step (d : DSt) (line : String) : DSt × String :=
       | "bbatch" :: _ :: pids =>
         match pids.mapM (·.toNat?) with
         | some (p :: ps) => let r := s.step (.batch (p :: ps)); ({ d with s := r.1 }, render "" r.2 r.1)
+        | _ => (d, "bad-op")
+      | ["fwd", pid, seq] =>
+        match pid.toNat?, seq.toNat? with
+        | some pid, some seq => let r := s.stepX (.fwd pid seq); ({ d with s := r.1 }, render "" r.2 r.1)
+        | _, _ => (d, "bad-op")
+      | ["wfail", pid] =>
+        match pid.toNat? with
+        | some pid => let r := s.stepX (.wfail pid); ({ d with s := r.1 }, render "" r.2 r.1)
+        | none => (d, "bad-op")
+      | "dbatch" :: els =>
+        match els.mapM parseEl with
+        | some (e :: es) => let r := s.stepX (.dbatch (e :: es)); ({ d with s := r.1 }, render "" r.2 r.1)
         | _ => (d, "bad-op")
       | "batch" :: pids =>
         match pids.mapM (·.toNat?) with
